@@ -556,6 +556,9 @@ func createOutSeg(vodFS fs.FS, a *asset, cfg *ResponseConfig, segmentPart string
 
 	switch cfg.getRepType(segmentPart) {
 	case segmentNumber, timeLineNumber:
+		if segID > math.MaxUint32 { // sequence numbers are 32 bits: no such segment, and no alias of segID mod 2^32
+			return so, errNotFound
+		}
 		nr := uint32(segID)
 		if nr < uint32(cfg.getStartNr()) {
 			return so, errNotFound
@@ -594,6 +597,9 @@ func findSegMeta(a *asset, cfg *ResponseConfig, segmentPart string, nowMS int) (
 	} else {
 		switch cfg.getRepType(segmentPart) {
 		case segmentNumber, timeLineNumber:
+			if segID > math.MaxUint32 { // sequence numbers are 32 bits: no such segment, and no alias of segID mod 2^32
+				return sm, errNotFound
+			}
 			nr := uint32(segID)
 			if nr < uint32(cfg.getStartNr()) {
 				return sm, errNotFound
@@ -649,6 +655,9 @@ func findRefSegMeta(a *asset, cfg *ResponseConfig, segmentPart string, nowMS int
 	var err error
 	switch cfg.getRepType(segmentPart) {
 	case segmentNumber, timeLineNumber:
+		if segID > math.MaxUint32 { // sequence numbers are 32 bits: no such segment, and no alias of segID mod 2^32
+			return refMeta, errNotFound
+		}
 		outSegNr := uint32(segID)
 		if outSegNr < uint32(cfg.getStartNr()) {
 			return refMeta, errNotFound
